@@ -398,7 +398,12 @@ class IndentationFitter(object):
         cpi = params_initial["contact_point"]
         cpi.set(min=cpi.min * self.fp["gcf_k"],
                 max=cpi.max * self.fp["gcf_k"])
-        cpi.set(value=cpi.value * self.fp["gcf_k"])
+        if cpi.expr:
+            # A constraint expression yields the contact point in
+            # measured units (setting a value would remove it).
+            cpi.expr = "({})*{!r}".format(cpi.expr, float(self.fp["gcf_k"]))
+        else:
+            cpi.set(value=cpi.value * self.fp["gcf_k"])
         weight_cp = self.fp["weight_cp"]
 
         # boolean array indexing the segment
@@ -443,7 +448,10 @@ class IndentationFitter(object):
             cpv = cpf.value / self.fp["gcf_k"]
             cp0 = self.fp["params_initial"]["contact_point"]
             cpf.set(min=cp0.min, max=cp0.max)
-            cpf.set(value=cpv)
+            if cp0.expr:
+                cpf.expr = cp0.expr
+            else:
+                cpf.set(value=cpv)
             # add fit results to fp dictionary
             self.fp.update({"params_fitted": fit.params,
                             "chi_sqr": fit.chisqr,
